@@ -319,7 +319,6 @@ Definition sp_step (s : sp) (e : ev) : sp :=
   | ELink b (Some o) =>
     if s_live s b && (match s_info s b with Some (_, true) => true | _ => false end) && s_live s o
        && negb (match s_info s o with Some (KRaw, _) => true | _ => false end)
-       && negb (existsb (fun b' => negb (b' =? b) && s_live s b' && opt_is o (s_owned s b')) (s_ids s))
     then mksp (s_info s) (s_ids s) (upd_owned (s_owned s) b (Some o)) (s_must s) (s_bad s) (s_torn s)
     else bad_
   | EDel k o =>
